@@ -69,6 +69,9 @@ type tConn struct {
 	gone         bool
 	foreignTried bool   // a client or user other than the owner attempted to bind this id
 	orphan       bool   // registered after its allocation was already gone (slow dial): lives until its own bind deadline
+	// limbo: the owner sent a valid ConnectionBind and hung up without waiting for the answer -
+	// bound or not, the peer connection must be gone when the bind deadline has passed
+	limbo bool
 	toPeer       []byte // bytes the client wrote after binding
 	toClient     []byte
 	gotPeer      []byte
